@@ -2,6 +2,7 @@ import Rbp.Proofs.Templates
 import Rbp.Proofs.OpReturn
 import Rbp.Proofs.Base58Check
 import Rbp.Proofs.Bech32Decode
+import Rbp.Proofs.Classify
 /-!
 # C05 — Bitcoin/testnet3: every output script gets the reference type and address
 The rust-bitcoin predicates are modelled by hand in `S`; these theorems relate the model to byte templates.
@@ -22,6 +23,40 @@ theorem p2pkh_p2sh_disjoint (s : Bytes) : ¬ (isP2pkh s = true ∧ isP2sh s = tr
   rintro ⟨h1, h2⟩
   simp only [isP2pkh, isP2sh, decide_eq_true_eq] at h1 h2
   omega
+
+/-- P2PK predicate ⇔ byte template `<0x21|0x41> <33- or 65-byte key> ac` -/
+theorem p2pk_iff_template (s k : Bytes) :
+    isP2pk s = some k ↔ (k.length = 33 ∨ k.length = 65) ∧ s = UInt8.ofNat k.length :: k ++ [0xac] := isP2pk_iff s k
+
+/-- witness program predicate ⇔ byte template `<OP_0 | OP_1..OP_16> <len> <len bytes>` with 2 ≤ len ≤ 40 -/
+theorem witness_iff_template (s : Bytes) (v : Nat) :
+    witnessVersion s = some v ↔
+      ∃ prog : Bytes, 2 ≤ prog.length ∧ prog.length ≤ 40 ∧ v ≤ 16 ∧
+        s = (if v = 0 then 0x00 else UInt8.ofNat (0x50 + v)) :: UInt8.ofNat prog.length :: prog := witnessVersion_iff s v
+
+/-- **every byte string gets the type of the one template it matches.**  For all scripts on both networks: the reported
+    type is OP_RETURN iff the first byte is 0x6a; provably unspendable iff (otherwise) the first opcode is of class
+    Return/Illegal; P2PK / P2PKH / P2SH iff the script is that byte template; P2WPKH / P2WSH / P2TR iff it is a witness
+    program of version 0 with 20 / 32 bytes or version 1 with 32 bytes; WitnessProgram iff any other witness program;
+    multisig iff the bare-multisig test holds — and these conditions are pairwise exclusive (each excludes everything the code
+    tests before it: `p2pk_excl … multisig_excl`), so the verdict does not depend on the order of the tests in the code -/
+theorem type_iff_template (testnet : Bool) (s : Bytes) :
+    ((∃ p, (evalBtc testnet s).pattern = .opReturn p) ↔ s.head? = some 0x6a) ∧
+    ((evalBtc testnet s).pattern = .unspendable ↔ (s.head? ≠ some 0x6a ∧ unspendableFirst s = true)) ∧
+    ((evalBtc testnet s).pattern = .p2pk ↔ ∃ k, isP2pk s = some k) ∧
+    ((evalBtc testnet s).pattern = .p2pkh ↔ isP2pkh s = true) ∧
+    ((evalBtc testnet s).pattern = .p2sh ↔ isP2sh s = true) ∧
+    ((evalBtc testnet s).pattern = .p2wpkh ↔ (s.length = 22 ∧ witnessVersion s = some 0)) ∧
+    ((evalBtc testnet s).pattern = .p2wsh ↔ (s.length = 34 ∧ witnessVersion s = some 0)) ∧
+    ((evalBtc testnet s).pattern = .p2tr ↔ (s.length = 34 ∧ witnessVersion s = some 1)) ∧
+    ((evalBtc testnet s).pattern = .witnessProgram ↔
+      ∃ v, witnessVersion s = some v ∧ ¬ (s.length = 22 ∧ v = 0) ∧ ¬ (s.length = 34 ∧ (v = 0 ∨ v = 1))) ∧
+    ((evalBtc testnet s).pattern = .multisig ↔ isBareMultisig s = true) :=
+  pattern_iff testnet s
+
+/-- the templates exclude one another (stated for the two that share a first byte: a witness program is never a multisig) -/
+theorem witness_never_multisig (s : Bytes) (v : Nat) (h : witnessVersion s = some v) : isMultisigLib s = false :=
+  witness_not_multisig s v h
 
 /-- reference verdicts: type and address of every canonical template, both networks
     (P2PKH/P2SH: Base58Check of prefix ‖ embedded hash with prefixes 0x00/0x05, testnet 0x6f/0xc4;
